@@ -98,8 +98,8 @@ META = {
     ),
     "C18": dict(
         technique="Lean 4 theorems on a model of fs/path.go + exhaustive differential correspondence",
-        text="Theorems (GoesUp exact, String injective on well-formed values, …) are proved in Lean about an executable model of fs/path.go; the model is tied to the Go code by running both on every string up to a length bound (exhaustive) and random byte strings, so a change of the Go functions shows as a disagreement with a concrete path as replay.",
-        note="Trusted: Lean kernel; goClean as a model of stdlib path.Clean (compared on the same exhaustive domain); the harness. Theorems still open are listed in DESIGN.md.",
+        text="The whole statement is proved for RelPath over all byte strings (every MustRelPath result is canonical = a clean component list; equal iff printed identically, hidden split index included; Join = print, glue with '/', parse; Dir/Last invert Join; Split = exactly the chain of prefixes; GoesUp iff first component is '..') in Lean about an executable model of fs/path.go; the model is tied to the Go code by running both on every string up to a length bound (exhaustive) and random byte strings, so a change of the Go functions shows as a disagreement with a concrete path as replay.",
+        note="Trusted: Lean kernel; goClean as a model of stdlib path.Clean (compared on the same exhaustive domain); the harness. AbsolutePath and SplitParent are covered by the correspondence only (DESIGN.md 11.2).",
     ),
 }
 
